@@ -409,8 +409,6 @@ Top:
 	return &n
 }
 
-var spaces = []byte{'\n'}
-
 func (p *Printer) appendTree(b []byte, n *node, offset, closes int) []byte {
 	if 0 < len(n.special) {
 		b = append(b, n.special...)
@@ -433,9 +431,6 @@ func (p *Printer) appendTree(b []byte, n *node, offset, closes int) []byte {
 		if off+n.elements[0].size+n.elements[1].size+t+1 <= int(p.RightMargin) {
 			off += n.elements[0].size + 1
 		}
-		if len(spaces)-1 < off {
-			spaces = append(spaces, bytes.Repeat([]byte{' '}, off-len(spaces)+1)...)
-		}
 		pos := offset + 1
 		for i, e := range n.elements {
 			t := 0
@@ -456,7 +451,8 @@ func (p *Printer) appendTree(b []byte, n *node, offset, closes int) []byte {
 					b = append(b, " .."...)
 					break
 				}
-				b = append(b, spaces[:off+1]...)
+				b = append(b, '\n')
+				b = append(b, bytes.Repeat([]byte{' '}, off)...)
 				b = p.appendTree(b, e, off, t)
 				pos = off + e.size + 1
 			}
